@@ -64,11 +64,220 @@ def compare(res, key, desc, got, want, want_fe, ident, tol=1e-9):
     if g.shape != w.shape:
         res.fail(f"{desc} shape", f"{desc}: result shape {g.shape}, per-(e,p) loop gives {w.shape}", ident)
         return
-    if g.size and np.abs(g.astype(float) - w.astype(float)).max() > tol * (1 + np.abs(w.astype(float)).max()):
+    if g.size and not (np.abs(g.astype(float) - w.astype(float)).max() <= tol * (1 + np.abs(w.astype(float)).max())):
         res.fail(f"{desc} value", f"{desc}: differs from the per-(e,p) loop by {np.abs(g.astype(float) - w.astype(float)).max():.3e}", ident)
         return
     if want_fe is not None and got_fe != want_fe:
         res.fail(f"{desc} type", f"{desc}: result is {'a FeArray' if got_fe else 'a plain array'} but the (Ne, nPg) axes are {'preserved' if want_fe else 'not preserved'}", ident)
+
+
+def compare_rel(res, key, desc, got, want, want_fe, ident, tol=1e-10):
+    """as compare, but the difference is measured relative to the size of the expected result (tiny / huge values)"""
+    res.case(key)
+    got_fe = isinstance(got, FeArray)
+    g = np.asarray(got, dtype=float)
+    w = np.asarray(want, dtype=float)
+    if g.shape != w.shape:
+        res.fail(f"{desc} shape", f"{desc}: result shape {g.shape}, per-(e,p) loop gives {w.shape}", ident)
+        return
+    ref = np.abs(w).max() if w.size else 1.0
+    err = (np.abs(g - w).max() / ref) if (w.size and ref > 0) else (np.abs(g).max() if g.size else 0.0)
+    if not (err <= tol):
+        res.fail(f"{desc} value", f"{desc}: differs from the per-(e,p) loop by {err:.3e} relative to the largest expected entry {ref:.3e}", ident)
+        return
+    if want_fe is not None and got_fe != want_fe:
+        res.fail(f"{desc} type", f"{desc}: result is {'a FeArray' if got_fe else 'a plain array'} but the (Ne, nPg) axes are {'preserved' if want_fe else 'not preserved'}", ident)
+
+
+def closed_forms_at_scales(res, rng):
+    """Det / Inv / Trace / A @ Inv(A) of well conditioned matrices whose entries are all multiplied by a unit factor:
+    the per-(e, p) operation is the same at any magnitude (np.linalg on each (e, p) block, plain loop)."""
+    for dim in (1, 2, 3):
+        for (Ne, nPg) in ((3, 3), (2, 3), (4, 2), (1, 1)):
+            while True:
+                a = ints(rng, (Ne, nPg, dim, dim))
+                if np.all(np.abs(np.linalg.det(a)) > 0.5):
+                    break
+            for scale in (1e-8, 1e-5, 1e-3, 1e-1, 1e2, 1e6):
+                res.count("scaled-closed-forms")
+                m = a * scale
+                want_det = loop(Ne, nPg, np.linalg.det, ("fe", m))
+                want_inv = loop(Ne, nPg, np.linalg.inv, ("fe", m))
+                want_tr = loop(Ne, nPg, np.trace, ("fe", m))
+                for fe in (True, False):
+                    M = FeArray.asfearray(m) if fe else m
+                    ident = dict(op="Det/Inv/Trace at a scale", dim=dim, Ne=Ne, nPg=nPg, fe=fe, scale=scale, integer_part=a.tolist())
+                    tag = f"dim={dim} entries scaled"
+                    try:
+                        det, inv, tr = Det(M), Inv(M), Trace(M)
+                        prod = (M @ inv) if fe else np.einsum("...ij,...jk->...ik", m, np.asarray(inv))
+                    except Exception as ex:  # noqa: BLE001
+                        res.case(("scaled", dim, fe, scale, (Ne, nPg)))
+                        res.fail(f"Det/Inv {tag} raises", f"raised {ex!r} for matrices of size {scale:g}", ident)
+                        continue
+                    compare_rel(res, ("scaled-Det", dim, fe, scale, (Ne, nPg)), f"Det {tag}", det, want_det, fe, ident)
+                    compare_rel(res, ("scaled-Inv", dim, fe, scale, (Ne, nPg)), f"Inv {tag}", inv, want_inv, fe, ident)
+                    compare_rel(res, ("scaled-Trace", dim, fe, scale, (Ne, nPg)), f"Trace {tag}", tr, want_tr, fe, ident)
+                    compare_rel(res, ("scaled-A@Inv(A)", dim, fe, scale, (Ne, nPg)), f"A @ Inv(A) {tag}", prod,
+                                np.broadcast_to(np.eye(dim), (Ne, nPg, dim, dim)), fe, ident, tol=1e-9)
+
+
+def field_operands(res, rng):
+    """A Field used as an operand stands for its shape function N_node(p) (times e_dof for a vector field), at every use:
+    expressions are compared with loops over (e, p) on a copy of the shape functions taken before any Field exists, first
+    on a new Field, then again after the caller changed in place the arrays it had obtained (u(), results), then on another
+    active node, then on a Field built afterwards on the same group of elements, and inside forms."""
+    from EasyFEA import MatrixType
+    from EasyFEA.FEM import Field, BiLinearForm, LinearForm
+    from tools.harness._meshes import mesh_of
+
+    for et, mtname in (("TRI3", "mass"), ("TRI6", "mass"), ("QUAD4", "rigi"), ("TETRA4", "mass"), ("SEG3", "mass")):
+        mt = getattr(MatrixType, mtname)
+        g = mesh_of(et).groupElem
+        Ne, nPe, inDim = g.Ne, g.nPe, g.inDim
+        N_ref = np.array(g.Get_N_pg(mt), dtype=float, copy=True)  # (nPg, 1, nPe)
+        nPg = N_ref.shape[0]
+        wJ = np.array(g.Get_weightedJacobian_e_pg(mt), dtype=float, copy=True)
+        base = dict(elemType=et, matrixType=mtname, mesh="tools.harness._meshes.mesh_of(elemType)", Ne=int(Ne), nPg=int(nPg))
+        res.case(("field partition of unity", et, mtname))
+        if not (np.abs(N_ref.sum(axis=2) - 1).max() <= 1e-12):
+            res.fail("shape functions do not sum to 1", f"{et}: sum_n N_n(p) != 1", base)
+
+        def fref(dof_n, node, dof):
+            arr = np.zeros((1, nPg, dof_n))
+            arr[0, :, dof] = N_ref[:, 0, node]
+            return arr
+
+        x = ints(rng, (Ne, nPg), nonzero=True)
+        X = FeArray.asfearray(x.copy())
+        for dof_n in sorted({1, inDim}):
+            vv = ints(rng, (Ne, nPg, dof_n), nonzero=True)
+            mm = ints(rng, (Ne, nPg, dof_n, dof_n))
+            cv = ints(rng, (dof_n,), nonzero=True)
+            V, M = FeArray.asfearray(vv.copy()), FeArray.asfearray(mm.copy())
+
+            def expressions(u):
+                ex = [("u * x", lambda: u * X, lambda n, a: n * a, "x"),
+                      ("x * u", lambda: X * u, lambda n, a: a * n, "x"),
+                      ("u + x", lambda: u + X, lambda n, a: n + a, "x"),
+                      ("x - u", lambda: X - u, lambda n, a: a - n, "x"),
+                      ("u - x", lambda: u - X, lambda n, a: n - a, "x"),
+                      ("u / x", lambda: u / X, lambda n, a: n / a, "x"),
+                      ("np.multiply(x, u)", lambda: np.multiply(X, u), lambda n, a: a * n, "x"),
+                      ("2.5 * u * x", lambda: 2.5 * u * X, lambda n, a: 2.5 * n * a, "x"),
+                      ("u() * x", lambda: u() * X, lambda n, a: n * a, "x")]
+                if dof_n > 1:
+                    ex += [("u.dot(v)", lambda: u.dot(V), lambda n, a: n @ a, "v"),
+                           ("u @ v", lambda: u @ V, lambda n, a: n @ a, "v"),
+                           ("v @ u", lambda: V @ u, lambda n, a: a @ n, "v"),
+                           ("v - u", lambda: V - u, lambda n, a: a - n, "v"),
+                           ("M @ u", lambda: M @ u, lambda n, a: a @ n, "M"),
+                           ("u * list(c)", lambda: (u * cv.tolist()) + 0 * V, lambda n, a: n * cv + 0 * a, "v")]
+                return ex
+
+            PHASES = {"first use": "new Field",
+                      "second use": "same Field, after the caller changed in place the arrays it had obtained (w = u(); w *= 3; w += 1; r = u * x; r[...] = nan)",
+                      "other node": "same Field, other active node / dof",
+                      "other node, second use": "same Field, other active node / dof, after the caller changed in place the arrays it had obtained",
+                      "later field": "Field built afterwards on the same group of elements"}
+
+            def check(u, node, dof, phase):
+                u._Set_current_active_node(node)
+                u._Set_current_active_dof(dof)
+                n_arr = fref(dof_n, node, dof)
+                for name, fn, f, second in expressions(u):
+                    other = dict(x=x, v=vv, M=mm)[second]
+                    res.count("field-operand")
+                    ident = dict(base, dof_n=dof_n, active_node=node, active_dof=dof, history=PHASES[phase], expression=name,
+                                 **{second: other.tolist()}, c=cv.tolist())
+                    key = ("field", et, dof_n, name, phase)
+                    try:
+                        got = fn()
+                    except Exception as ex:  # noqa: BLE001
+                        res.case(key)
+                        res.fail(f"Field operand: {name} raises", f"{et} dof_n={dof_n}: {name} raised {ex!r} ({phase})", ident)
+                        continue
+                    want = loop(Ne, nPg, f, ("fe", n_arr), ("fe", other))
+                    compare(res, key, f"Field operand dof_n={dof_n}: {name} [{phase}]", got, want, True, ident, tol=1e-12)
+
+            def caller_modifies(u):
+                """what a caller may do with the arrays the library handed out: in-place arithmetic on ITS arrays"""
+                w = u()
+                if np.asarray(w).flags.writeable:
+                    w *= 3.0
+                    w += 1.0
+                else:
+                    res.count("field: u() is read-only")
+                r = u * X
+                if np.asarray(r).flags.writeable:
+                    r[...] = np.nan
+
+            nodes = sorted({0, nPe - 1, rng.randrange(nPe)})
+            u = Field(g, dof_n, mt)
+            check(u, 0, 0, "first use")
+            caller_modifies(u)
+            check(u, 0, 0, "second use")
+            for node in nodes:
+                dof = rng.randrange(dof_n)
+                check(u, node, dof, "other node")
+                caller_modifies(u)
+                check(u, node, dof, "other node, second use")
+            check(Field(g, dof_n, mt), nodes[-1], dof_n - 1, "later field")
+
+            # interpolation of nodal values, before / after the caller changed the array it got
+            u = Field(g, dof_n, mt)
+            dofs = ints(rng, (g.Ncoords * dof_n,))
+            want = np.zeros((Ne, nPg, dof_n))
+            for e in range(Ne):
+                for p in range(nPg):
+                    for d in range(dof_n):
+                        want[e, p, d] = sum(N_ref[p, 0, n] * dofs[g.connect[e, n] * dof_n + d] for n in range(nPe))
+            for phase in ("first", "after in-place changes of u() and of the first result"):
+                ident = dict(base, dof_n=dof_n, history=phase, dofsValues=dofs.tolist())
+                try:
+                    got = u.Interpolate(dofs.copy())
+                except Exception as ex:  # noqa: BLE001
+                    res.case(("field-interpolate", et, dof_n, phase))
+                    res.fail("Field.Interpolate raises", f"{et} dof_n={dof_n}: raised {ex!r}", ident)
+                    break
+                compare(res, ("field-interpolate", et, dof_n, phase), f"Field.Interpolate dof_n={dof_n} [{phase}]", got, want, True, ident, tol=1e-12)
+                caller_modifies(u)
+                if np.asarray(got).flags.writeable:
+                    got *= 2.0
+
+        # forms whose integrand applies a coefficient in place to the array obtained from the trial / test function
+        if et in ("TRI3", "TRI6", "SEG3"):
+            rho = 2.5
+
+            def mass(u, v):
+                ru = u()
+                ru *= rho
+                return ru * v
+
+            def load(v):
+                rv = v()
+                rv *= rho
+                return rv * X
+
+            want_M = np.zeros((Ne, nPe, nPe))
+            want_b = np.zeros((Ne, nPe, 1))
+            for e in range(Ne):
+                for p in range(nPg):
+                    for i in range(nPe):
+                        want_b[e, i, 0] += wJ[e, p] * rho * N_ref[p, 0, i] * x[e, p]
+                        for j in range(nPe):
+                            want_M[e, i, j] += wJ[e, p] * rho * N_ref[p, 0, i] * N_ref[p, 0, j]
+            for name, build, want in (("BiLinearForm rho u v", lambda: BiLinearForm(mass).Integrate_e(Field(g, 1, mt)), want_M),
+                                      ("LinearForm rho x v", lambda: LinearForm(load).Integrate_e(Field(g, 1, mt)), want_b)):
+                ident = dict(base, form=name, rho=rho, x=x.tolist(), integrand="w = u(); w *= rho; return w * v   (resp. w * x)")
+                res.count("field-form")
+                try:
+                    got = build()
+                except Exception as ex:  # noqa: BLE001
+                    res.case(("field-form", et, name))
+                    res.fail(f"{name} with an in-place coefficient raises", f"{et}: raised {ex!r}", ident)
+                    continue
+                compare_rel(res, ("field-form", et, name), f"{name}, coefficient applied in place to the array of the field", got, want, None, ident, tol=1e-11)
 
 
 def main():
@@ -140,10 +349,10 @@ def main():
             form = rng.choice(["method", "function"])
             single = rng.choice(list(range(-nd, nd)))
             axis = single
-            if red not in ("argmax",) and rng.random() < 0.3:
+            if red not in ("argmax",) and not (rng.random() >= 0.3):
                 other = rng.choice([x for x in range(-nd, nd) if (x % nd) != (single % nd)])
                 axis = (single, other)
-            if rng.random() < 0.1:
+            if not (rng.random() >= 0.1):
                 axis = None
             fn = getattr(np, red)
             want = fn(a, axis=axis) if axis is not None else fn(a)
@@ -313,6 +522,46 @@ def main():
                 compare(res, ("broadcast-collision", lead, tn, (Ne_, nPg_, d_)), f"broadcast lead={lead} tensor_ndim={tn} (sizes coincide)", got, want, True,
                         dict(shape=list(shape), Ne=Ne_, nPg=nPg_, tensor_ndim=tn, values=v.tolist()))
 
+    # ---------------- Det / Inv / products at any magnitude (entries scaled like quantities in mm, micrometres, Pa) ----------------
+    closed_forms_at_scales(res, rng)
+
+    # ---------------- Field objects as operands, over histories (second use, arrays handed out modified by the caller) ----------------
+    field_operands(res, rng)
+
+    # ---------------- the type of the result of numpy functions that consume or move an FE axis, when Ne == nPg == d ----------------
+    # "A result remains a finite-element array exactly when the leading element and integration-point axes are preserved": a reduction
+    # along axis 0, or an exchange of axes 0 and 1, does not preserve them, whatever the sizes. Each function is first shown to return
+    # a plain array (with the per-point values of a plain numpy call) on sizes without coincidence, then asked again on (n, n, n).
+    typing_funcs = [("np.sum(axis=0)", lambda a: np.sum(a, axis=0)), ("np.linalg.norm(axis=0)", lambda a: np.linalg.norm(a, axis=0)),
+                    ("np.nansum(axis=0)", lambda a: np.nansum(a, axis=0)), ("np.add.reduce(axis=0)", lambda a: np.add.reduce(a, axis=0)),
+                    ("np.max(axis=1)", lambda a: np.max(a, axis=1)), ("np.mean(axis=(0, 1))", lambda a: np.mean(a, axis=(0, 1))),
+                    ("np.swapaxes(0, 1)", lambda a: np.swapaxes(a, 0, 1)), ("np.transpose((1, 0, 2))", lambda a: np.transpose(a, (1, 0, 2))),
+                    ("np.moveaxis(0, 1)", lambda a: np.moveaxis(a, 0, 1))]
+    kept_by_coincidence = []
+    for name, fn in typing_funcs:
+        for shape in ((5, 4, 3), (3, 3, 3), (2, 2, 2)):
+            arr = ints(rng, shape).astype(float)
+            ident = dict(op=name, shape=list(shape))
+            res.case(("typing", name, shape))
+            res.count("typing-of-axis-consuming-functions")
+            try:
+                got = fn(FeArray.asfearray(arr))
+                want = fn(arr)
+            except Exception as ex:  # noqa: BLE001
+                res.fail(f"axis-consuming function raises: {name}", f"raised {ex!r} on shape {shape}", ident)
+                continue
+            if np.asarray(got).shape != np.asarray(want).shape or not (np.abs(np.asarray(got, dtype=float) - np.asarray(want, dtype=float)).max() <= 1e-12):
+                res.fail(f"axis-consuming function value: {name}", f"differs from the plain numpy call on shape {shape}", ident)
+            if isinstance(got, FeArray):
+                if shape[0] != shape[1]:
+                    res.fail(f"axis-consuming function typed FeArray: {name}", f"result of shape {np.asarray(got).shape} is a FeArray although an FE axis was consumed or moved (shape {shape}, no coincidence)", ident)
+                elif name not in kept_by_coincidence:
+                    kept_by_coincidence.append(name)
+    if kept_by_coincidence:
+        res.fail("typed FeArray by shape coincidence: " + ", ".join(sorted(kept_by_coincidence)),
+                 "on arrays of shape (n, n, n) these functions return a FeArray although they consume or move an FE axis; on shapes without coincidence they return a plain array",
+                 dict(functions=sorted(kept_by_coincidence), shapes=[[3, 3, 3], [2, 2, 2]]))
+
     # ---------------- correspondence ----------------
     lines, expect = [], []
     for nd in range(2, 7):
@@ -328,7 +577,7 @@ def main():
     for dim in (1, 2, 3):
         for _ in range(5):
             m = ints(rng, (dim, dim), -6, 6)
-            if abs(np.linalg.det(m)) < 0.5:
+            if not (abs(np.linalg.det(m)) >= 0.5):
                 continue
             lines.append(f"det {dim} " + " ".join(str(int(v)) for v in m.ravel()))
             expect.append(("det", m.tolist(), float(Det(m))))
@@ -345,11 +594,11 @@ def main():
                 if ans != real:
                     res.disagree(what, dict(input=inp, model=ans, real=real))
             elif what == "det":
-                if abs(float(parse_frac(ans)) - real) > 1e-9 * (1 + abs(real)):
+                if not (abs(float(parse_frac(ans)) - real) <= 1e-9 * (1 + abs(real))):
                     res.disagree("det", dict(input=inp, model=ans, real=real))
             else:
                 mv = [float(parse_frac(t)) for t in ans.split()]
-                if np.abs(np.array(mv) - np.array(real)).max() > 1e-8 * (1 + np.abs(real).max()):
+                if not (np.abs(np.array(mv) - np.array(real)).max() <= 1e-8 * (1 + np.abs(real).max())):
                     res.disagree("adj", dict(input=inp, model=mv, real=real))
     res.sample(dict(shapes=SHAPES, programs=nprog))
     res.search_note = "random expression programs against explicit (e, p) loops found no differing value or type"
